@@ -250,10 +250,21 @@ def check_shortcuts(ctx, inst, case):
                 ctx.violation(f"shortcut/{name}.curtype/differs-from-explicit-path", f"curtype {inst.curtype!r} vs {type(cur).__name__}", dict(case, shortcut="curtype"))
 
 
+def check_shortcuts_pure(ctx, inst, case):
+    """Reading shortcuts (twice) must not change the model."""
+    before = modelwalk.snap(inst, exact=True)
+    check_shortcuts(ctx, inst, case)
+    check_shortcuts(ctx, inst, case)
+    ctx.ev()
+    d = modelwalk.diff(before, modelwalk.snap(inst, exact=True))
+    if d:
+        ctx.violation("shortcut/reading-mutates-the-model", f"{type(inst).__name__}: after reading its shortcuts the model differs: {d}", dict(case, shortcut="*"))
+
+
 def probe(ctx, inst, rng, case):
     check_flat(ctx, inst, case)
     check_misses(ctx, inst, rng, case)
-    check_shortcuts(ctx, inst, case)
+    check_shortcuts_pure(ctx, inst, case)
     check_copies(ctx, inst, case)
     ctx.distinct((case["cls"], case["seedstr"], case.get("pattern", "")))
 
@@ -322,7 +333,7 @@ def run_shard(ctx):
             except instances.ConstructorRejected:
                 continue
             case = {"cls": name, "seedstr": seedstr, "msgset": True, "force": force, "profile": "max" if r % 2 == 0 else "random"}
-            check_shortcuts(ctx, inst, case)
+            check_shortcuts_pure(ctx, inst, case)
             if r < 2:
                 check_copies(ctx, inst, case)
             ctx.distinct((name, seedstr))
